@@ -96,7 +96,7 @@ def P():
 # item shape used for the receivers of each class ('Qube' gets two: () and (2,))
 ITEMS = {'Qube': [(), (2,)], 'Scalar': [()], 'Boolean': [()], 'Vector': [(3,)], 'Vector3': [(3,)],
          'Pair': [(2,)], 'Matrix': [(2, 2)], 'Matrix3': [(3, 3)], 'Quaternion': [(4,)],
-         'Polynomial': [(3,)]}
+         'Polynomial': [(3,), (4,)]}     # (4,): order 3, the array-based root solver
 SHAPES = [(), (0,), (3,), (2, 3)]
 MASKS = ['F', 'T', 'aF', 'mix', 'bview']
 
@@ -215,6 +215,8 @@ def build_receiver(d, Pm, salt=0):
         vals = vals + 2.0 * np.eye(item[0])          # mostly non-singular ...
         if len(shape) >= 1 and shape[0] >= 2:
             vals[1] = 0.                             # ... and one singular matrix per array
+    if d['cls'] == 'Polynomial' and len(shape) >= 1 and shape[0] >= 2:
+        vals[1, ..., 0] = 0.                         # one polynomial per array with a leading zero coefficient
     mask = make_mask(d['mask'], shape)
     if shape + item == ():
         vals = vals[()].item()
@@ -261,7 +263,7 @@ def obj_pool(cname, mname, pname, recv):
     """Object-valued parameter: the receiver itself (aliasing), an equal twin, a Scalar, numbers,
     an ndarray, None and an object of a foreign class."""
     shape = tuple(recv['shape']) if recv and 'shape' in recv else (3,)
-    pool = [['same'], ['self'], ['obj', _scalar_desc((), 'float')], ['lit', 2], ['lit', 0.5]]
+    pool = [['same'], ['self'], ['obj', _scalar_desc((), 'float')], ['lit', 2], ['lit', 0.5], ['lit', 1.0]]
     pool.append(['obj', _scalar_desc(shape, 'float', 'mix' if shape not in ((), (0,)) else 'F', 't')])
     pool.append(['bcast'])        # same class, another array shape that broadcasts with the receiver's
     pool.append(['bcast1'])       # same class, shape (1,), fully masked through an ARRAY mask
@@ -309,7 +311,7 @@ def pool_for(cname, mname, pname, param, recv):
         if pname == 'namedict':
             return [['lit', {'km': 1, 's': -1}], ['lit', {}]]
         if pname == 'power':
-            return [['lit', 2], ['lit', -1], ['lit', 0.5], ['lit', 0]]
+            return [['lit', 2], ['lit', -1], ['lit', 0.5], ['lit', 0], ['lit', 1], ['lit', 1.0]]
         if pname in ('units', 'arg', 'arg1', 'arg2', 'first', 'second'):
             return [['units', 'SEC'], ['self'], ['lit', None], ['units', 'KM'], ['lit', 'km'], ['lit', 3]]
         if pname == 'value':
